@@ -30,7 +30,7 @@ REQUIRED_MONITORS = ('cli_vs_library_bytes', 'discovery_vs_truth', 'discovery_ha
 REQUIRED_CLASSES = ('mol:explicit-only', 'mol:explicit+auto', 'auto-only', 'exclude', 'exclude:several', 'output:given', 'output:default',
                     'input:other-directory', 'distractor:absent-species-topology', 'distractor:foreign-coordinates',
                     'distractor:unknown-extension', 'distractor:system-file-in-list', 'distractor:previous-output', 'distractor:impostor-topology',
-                    'species-without-end-files', 'explicit-also-in-list', 'explicit-also-in-list:every-file-spelled-differently', 'order:small-species-before-a-searched-one', 'output:path-holds-the-result-of-an-earlier-run', 'mol:end-topology-named-differently', 'candidates:files-listed-twice', 'paths:explicit-and-listed-spelled-differently', 'scale:non-default', 'output-path:absolute',
+                    'species-without-end-files', 'explicit-also-in-list', 'explicit-also-in-list:every-file-spelled-differently', 'order:small-species-before-a-searched-one', 'output:path-holds-the-result-of-an-earlier-run', 'discovery:crowded-directory-under-a-descriptor-limit', 'mol:end-topology-named-differently', 'candidates:files-listed-twice', 'paths:explicit-and-listed-spelled-differently', 'scale:non-default', 'output-path:absolute',
                     'output-path:relative-plain', 'output-path:relative-subdir')
 RULE = ('generated directories of 2-4 species with distractor files (topologies of absent species, foreign coordinate files, '
         'unknown extensions, the system file and a previous output in the candidate list, a species without end files) x '
@@ -183,6 +183,39 @@ def check_discovery(ctx, w, candidates, known, wit, n_orders, hash_seeds):
     else:
         orders = [candidates] + [[candidates[int(i)] for i in rng.permutation(len(candidates))] for _ in range(n_orders)]
     first = None
+    # a crowded directory and a modest limit on open files (ulimit -n): forty coordinate files that belong to nothing are
+    # among the candidates, and the process may hold two dozen descriptors more than it holds now; files that were looked
+    # at and put aside are not kept open
+    crowd_dir = os.path.join(w['root'], 'crowd')
+    if not os.path.isdir(crowd_dir):
+        os.makedirs(crowd_dir)
+        for k in range(40):
+            gen.write_gro(os.path.join(crowd_dir, f'frame{k}.gro'), f'unrelated {k}',
+                          [(1, 'XXX', f'X{j}', j + 1, (0.1 * j, 0.2, 0.3 + k), None) for j in range(2 + k % 3)], np.array([3.0, 3.0, 3.0]))
+    crowd = [os.path.join(crowd_dir, f) for f in sorted(os.listdir(crowd_dir))]
+    import resource
+    soft, hard = resource.getrlimit(resource.RLIMIT_NOFILE)
+    mixed = list(candidates) + crowd
+    mixed = [mixed[int(k)] for k in rng.permutation(len(mixed))]
+    try:
+        resource.setrlimit(resource.RLIMIT_NOFILE, (len(os.listdir('/proc/self/fd')) + 24, hard))
+        ctx.monitor('discovery_vs_truth')
+        ctx.count('evaluations')
+        ctx.hit('discovery:crowded-directory-under-a-descriptor-limit')
+        try:
+            res = cli.sort_molecules(w['system_gro'], mixed, [list(k) for k in known])
+            got = complete_only(res)
+        finally:
+            resource.setrlimit(resource.RLIMIT_NOFILE, (soft, hard))
+        if got != truth:
+            names_bad = sorted(set(got) ^ set(truth)) or sorted(n for n in truth if got.get(n) != truth[n])
+            ctx.violation('discovery-assignment-wrong:crowded-directory', f'with 40 unrelated coordinate files listed and room for 24 more open files: '
+                          f'species {names_bad} differ', witness=wit)
+            return False
+    except Exception as exc:  # noqa
+        resource.setrlimit(resource.RLIMIT_NOFILE, (soft, hard))
+        ctx.violation(f'discovery-crashes:crowded-directory:{type(exc).__name__}', str(exc)[:150], witness=wit)
+        return False
     for order in orders:
         ctx.monitor('discovery_vs_truth')
         ctx.count('evaluations')
